@@ -103,6 +103,7 @@ pub(super) fn poll_connect(
             timed_out: false,
             egress_since_ack: 0,
             retx_attempts: 0,
+            persist_ticks: 0,
         });
         st.peer = Some(Addr::Inet(peer));
     }
@@ -446,12 +447,20 @@ fn handle_established(
     if !s.payload.is_empty() || s.flags.fin || s.flags.syn {
         send_ack = true;
     }
+    // So is an empty segment that lies before rcv_nxt — an old duplicate, which
+    // is what a zero-window / keepalive probe looks like. The answer carries the
+    // current window; it goes out from `snd_max`, so it can never itself look like
+    // an old duplicate to the peer (no ACK ping-pong while our `snd_nxt` is rewound).
+    let rcv_nxt = k.lookup(fd).unwrap().tcb.as_ref().unwrap().rcv_nxt;
+    let behind = rcv_nxt.wrapping_sub(s.seq);
+    let old_dup =
+        s.payload.is_empty() && !s.flags.fin && !s.flags.syn && behind != 0 && behind < (1 << 31);
 
-    if send_ack {
+    if send_ack || old_dup {
         let (snd_nxt, rcv_nxt, window) = {
             let tcb = k.lookup(fd).unwrap().tcb.as_ref().unwrap();
             (
-                tcb.snd_nxt,
+                if old_dup { tcb.snd_max } else { tcb.snd_nxt },
                 tcb.rcv_nxt,
                 advertised_window(recv_cap, tcb.recv_buf.len()),
             )
@@ -539,6 +548,7 @@ fn accept_syn(
             timed_out: false,
             egress_since_ack: 0,
             retx_attempts: 0,
+            persist_ticks: 0,
         });
     }
     k.sockets.insert_connection(local, remote, child);
@@ -1275,6 +1285,44 @@ pub(super) fn check_retx(k: &mut Kernel) {
             abort_timed_out(k, fd);
         }
     }
+    // Zero-window persist: a sender with something to send, nothing
+    // in flight and a closed peer window has no timer of its own, and
+    // the ACK that reopens the window can be lost or overtaken by an
+    // older one. Every `retx_threshold` passes ask for the window: an
+    // empty segment one sequence number before `snd_una`, which the
+    // peer answers as an old duplicate with its current ACK and window
+    // (and a peer that no longer knows the connection with an RST).
+    // Nothing is sent beyond the window, `snd_nxt` / `snd_max` stay
+    // put and `retx_max` is never charged, so a slow reader is never
+    // aborted.
+    let persisting: Vec<Fd> = k
+        .sockets
+        .iter()
+        .filter_map(|(fd, st)| {
+            let tcb = st.tcb.as_ref()?;
+            let open = matches!(
+                tcb.state,
+                TcpState::Established
+                    | TcpState::CloseWait
+                    | TcpState::FinWait1
+                    | TcpState::Closing
+                    | TcpState::LastAck
+            );
+            let pending = !tcb.send_buf.is_empty() || tcb.fin_seq == Some(tcb.snd_nxt);
+            (open && tcb.snd_wnd == 0 && tcb.snd_una == tcb.snd_nxt && pending).then_some(fd)
+        })
+        .collect();
+    for fd in persisting {
+        let st = k.lookup_mut(fd).unwrap();
+        let local = bound_endpoint(st);
+        let tcb = st.tcb.as_mut().unwrap();
+        tcb.persist_ticks += 1;
+        if tcb.persist_ticks >= threshold {
+            tcb.persist_ticks = 0;
+            let seq = tcb.snd_una.wrapping_sub(1);
+            emit_segment(k, fd, local, seq, Bytes::new(), false);
+        }
+    }
 }
 
 /// Re-emit the SYN (client, `SynSent`) or SYN-ACK (server,
@@ -1362,7 +1410,6 @@ fn segment_one(k: &mut Kernel, fd: Fd) {
         bound_endpoint(st)
     };
     let mss = mss_for(k, local.ip());
-    let recv_cap = k.recv_buf_cap;
 
     loop {
         let (seq, payload, is_fin) = {
@@ -1392,31 +1439,38 @@ fn segment_one(k: &mut Kernel, fd: Fd) {
                 return;
             }
         };
-        let remote = k.lookup(fd).unwrap().tcb.as_ref().unwrap().peer;
-        let (rcv_nxt, window) = {
-            let tcb = k.lookup(fd).unwrap().tcb.as_ref().unwrap();
-            (tcb.rcv_nxt, advertised_window(recv_cap, tcb.recv_buf.len()))
-        };
-        emit(
-            k,
-            local,
-            remote,
-            TcpSegment {
-                src_port: local.port(),
-                dst_port: remote.port(),
-                seq,
-                ack: rcv_nxt,
-                flags: TcpFlags {
-                    ack: true,
-                    psh: !is_fin && !payload.is_empty(),
-                    fin: is_fin,
-                    ..TcpFlags::default()
-                },
-                window,
-                payload,
-            },
-        );
+        emit_segment(k, fd, local, seq, payload, is_fin);
     }
+}
+
+/// Put one segment of `fd` on the wire, with the current `rcv_nxt`
+/// and advertised window.
+fn emit_segment(k: &mut Kernel, fd: Fd, local: SocketAddr, seq: u32, payload: Bytes, is_fin: bool) {
+    let recv_cap = k.recv_buf_cap;
+    let remote = k.lookup(fd).unwrap().tcb.as_ref().unwrap().peer;
+    let (rcv_nxt, window) = {
+        let tcb = k.lookup(fd).unwrap().tcb.as_ref().unwrap();
+        (tcb.rcv_nxt, advertised_window(recv_cap, tcb.recv_buf.len()))
+    };
+    emit(
+        k,
+        local,
+        remote,
+        TcpSegment {
+            src_port: local.port(),
+            dst_port: remote.port(),
+            seq,
+            ack: rcv_nxt,
+            flags: TcpFlags {
+                ack: true,
+                psh: !is_fin && !payload.is_empty(),
+                fin: is_fin,
+                ..TcpFlags::default()
+            },
+            window,
+            payload,
+        },
+    );
 }
 
 /// Maximum TCP payload for a segment leaving `src_ip`. Mirrors the UDP
